@@ -30,13 +30,13 @@ func init() {
 	})
 }
 
-func c06Profile(flagCount uint32) app.Profile {
+func c06Profile(flagCount uint32, single bool) app.Profile {
 	return app.Profile{
 		MaxNodes: 6, MaxExt: 4, FlagCount: flagCount,
 		Menus: true, Sinks: false,
 		Catch: true, Croak: true, ExtFlags: true, ExtReserved: true, ExtTerminate: true,
 		ExtErrPct: 3, EmptyPct: 3,
-		SingleRoute: true, RelTargets: true,
+		SingleRoute: single, RelTargets: true,
 		CatchShape: -1,
 	}
 }
@@ -77,7 +77,7 @@ func runC06(c *core.Ctx) *core.Outcome {
 	cfg.CacheSize = 0
 	cfg.OutputSize = 0
 	cfg.FlagCount = uint32([]int{1, 3, 8, 9, 0, 40}[t.Int(6)])
-	a := app.Generate(t, c06Profile(cfg.FlagCount))
+	a := app.Generate(t, c06Profile(cfg.FlagCount, t.Chance(3, 4)))
 	if err := a.Validate(); err != nil {
 		panic("generator produced ill-formed app: " + err.Error())
 	}
@@ -206,6 +206,9 @@ func blockKey(r *modelRun) string {
 }
 
 func finishC06(o *core.Outcome, c *core.Ctx, r *modelRun, wb *world.World) *core.Outcome {
+	for k, v := range r.m.Stats {
+		o.Probes["model_"+k] += v
+	}
 	if c.WantScenario || o.V != nil {
 		o.Scenario = map[string]interface{}{"with_reserved": scenario(r.w, nil), "stripped": scenario(wb, nil)["sessions"]}
 	}
